@@ -32,7 +32,7 @@ Flat(ss) == IF ss = <<>> THEN <<>> ELSE Head(ss) \o Flat(Tail(ss))
 
 \* st.left: pool name -> remaining limits; st.finals: <<[opener, its]>>; st.claims: Results.claims; st.n*: counters of the trace
 St0 == [left |-> <<>>, finals |-> <<>>, claims |-> <<>>, opens |-> 0, guarded |-> 0, fallbacks |-> 0, prefixes |-> 0, truncated |-> 0,
-        created |-> 0, hook |-> FALSE]
+        created |-> 0, failed |-> 0, hook |-> FALSE]
 TraceInit == l = 1 /\ cfg = <<>> /\ st = St0 /\ viol = <<>> /\ ntr = 0 /\ cases = <<>> /\ done = FALSE
 
 PoolNames == {cfg'.pools[i].name : i \in DOMAIN cfg'.pools}
@@ -81,13 +81,27 @@ TRequeue ==
                                          "Obs_C19_Unplaced", "or-term-dropped-before-prefer-no-schedule-toleration"))
     /\ UNCHANGED <<cfg, st, ntr, cases>>
 
+\* ---- Sched fail: the pod ends the pass without a home (every pool was tried in the final state: the queue retries a pod
+\* whenever another one was placed after its last attempt).  First sentence of C19: a pod that needs a new node IS assigned
+\* to the highest-weight ready pool able to host it - so no usable pool may be able to host it now.  "Able" is judged by
+\* the forms Karpenter's documented relaxation ladder tries (FeasibleLadder, weaker than the Kubernetes reading).
+TFail ==
+    /\ Ev.e = "Sched" /\ Ev.kind = "fail"
+    /\ viol' = viol \o (IF Ev.eff = <<>> \/ Ev.err # "unschedulable" THEN <<>>
+                        ELSE LET e == Ev.eff[1] IN
+                             IF ~Exact(e) THEN <<>>
+                             ELSE Chk(~\E q \in Range(cfg.pools) : FeasibleLadder(cfg, e, q, st.left[q.name]),
+                                      "G_C19_HighestWeightFeasible", "unplaced-though-a-pool-can-host-it"))
+    /\ st' = [st EXCEPT !.failed = @ + (IF Ev.eff # <<>> /\ Ev.err = "unschedulable" /\ Exact(Ev.eff[1]) THEN 1 ELSE 0)]
+    /\ UNCHANGED <<cfg, ntr, cases>>
+
 \* ---- Sched final: the option list of a NodeClaim when scheduling is over
 TFinal ==
     /\ Ev.e = "Sched" /\ Ev.kind = "final"
     /\ st' = [st EXCEPT !.finals = Append(@, [opener |-> Ev.opener, its |-> Ev.its]), !.hook = TRUE]
     /\ UNCHANGED <<cfg, viol, ntr, cases>>
 
-TSchedOther == Ev.e = "Sched" /\ Ev.kind \notin {"open", "requeue", "final"} /\ UNCHANGED <<cfg, st, viol, ntr, cases>>
+TSchedOther == Ev.e = "Sched" /\ Ev.kind \notin {"open", "requeue", "final", "fail"} /\ UNCHANGED <<cfg, st, viol, ntr, cases>>
 
 \* the scheduler's options of claim c: the final event of its opener (without hook H1: what Results still shows)
 HasFinal(c) == c.pods # <<>> /\ \E i \in DOMAIN st.finals : st.finals[i].opener = c.pods[1]
@@ -123,7 +137,7 @@ TCreated ==
 TEnd ==
     /\ Ev.e = "End"
     /\ cases' = Append(cases, [name |-> cfg.name, opens |-> st.opens, guarded |-> st.guarded, fallbacks |-> st.fallbacks, prefixes |-> st.prefixes,
-                               truncated |-> st.truncated, created |-> st.created, hook |-> st.hook])
+                               truncated |-> st.truncated, created |-> st.created, failed |-> st.failed, hook |-> st.hook])
     /\ UNCHANGED <<cfg, st, viol, ntr>>
 
 Passive == {"Hydrate", "Api", "Read", "Prov", "Tick", "CreateErr", "Panic", "Env"}
@@ -131,7 +145,7 @@ TPassive == Ev.e \in Passive /\ UNCHANGED <<cfg, st, viol, ntr, cases>>
 
 TraceNext ==
     \/ /\ l <= Len(Trace) /\ l' = l + 1 /\ UNCHANGED done
-       /\ (TCfg \/ TOpen \/ TRequeue \/ TFinal \/ TSchedOther \/ TResults \/ TCreated \/ TEnd \/ TPassive)
+       /\ (TCfg \/ TOpen \/ TRequeue \/ TFail \/ TFinal \/ TSchedOther \/ TResults \/ TCreated \/ TEnd \/ TPassive)
     \/ /\ l = Len(Trace) + 1 /\ ~done /\ done' = TRUE
        /\ JsonSerialize(IOEnv.OUT, [viol |-> viol, consumed |-> l - 1, traces |-> ntr, cases |-> cases])
        /\ UNCHANGED <<l, cfg, st, viol, ntr, cases>>
